@@ -2,22 +2,33 @@
 C06 — non-ground programs mean the same as their ground instances.
 
 telingo's own part in this is small and is what is modelled: the time argument is appended by predicate *name*
-only (`getParam` / `acceptsAtom` take no arguments: uniform for every instance of a schema — validated on atom forms
-with arguments, pools and classical negation by the C11 grid); the ground elements of a theory atom, with their conditions, are folded into one formula;
-the numeric time ranges of a head-formula atom are merged by `IntervalSet`.  Proved:
+only (`TermTransformer`, transformers/term.py, modelled by `addTime` on predicate / classical negation / pool terms and
+compared with the real class on random terms); the ground elements of a theory atom, with their conditions, are folded
+into one formula; symbols inside theory atoms are converted back by `create_symbol`; the numeric time ranges of a
+head-formula atom are merged by `IntervalSet`.  Proved:
+  * `time_arg_uniform`              adding the time parameter commutes with pool expansion and classical negation: every
+                                    instance of the atom term gets the parameters its own predicate name asks for, and the
+                                    bookkeeping is what handling the instances one by one gives
+  * `max_shift_is_max` / `future_sign_recorded`  `max_shift` ends as the maximum look-ahead over all instances that are
+                                    not replaced; every replaced instance is recorded as a future predicate with its own sign
+  * `symbol_roundtrip`              `create_symbol` applied to the theory term by which clingo presents a ground symbol
+                                    (numbers, strings, `#inf`/`#sup`, function symbols, tuples, classical negation, any nesting)
+                                    gives that symbol back
   * `elements_sem` / `element_sem`  the formula of `&tel{ f(X) : c(X) }` after grounding is the conjunction over the
                                     ground elements of `c(x) -> f(x)`, for any number of elements in any order
   * `interval_add` / `interval_addAll`  `IntervalSet.add` keeps the sorted-disjoint invariant and the set of time
                                     points is exactly the union of the added ranges — so the domain rule built from
                                     the merged ranges of a schema covers what the ranges of each instance cover
 PARTIAL: that clingo's grounder computes the instances is the grounder's contract; `transform_subst` (the rewriting
-commutes with substitution on the full AST) and `create_symbol` round-trips are not proved; they are covered by the
-search: schema vs its own textual instantiation over a finite domain (variables, pools, intervals, arithmetic,
+commutes with substitution on the full statement AST — conditions, aggregates, theory atoms) is not proved; it is covered
+by the search: schema vs its own textual instantiation over a finite domain (variables, pools, intervals, arithmetic,
 comparisons, conditions, aggregates, n-fold prefixes given by variables, #show/#external), equal answer sets.
 -/
 import TelProofs.ElementsSem
 import TelProofs.IntervalProofs
 import TelModel.Reject
+import TelProofs.TimeArgProofs
+import TelProofs.SymRoundTrip
 
 namespace TelProofs.C06
 open TelSpec TelModel TelProofs
@@ -50,7 +61,34 @@ theorem interval_addAll (ys : List Ival) : ∀ (s : List Ival), IvSorted s →
     refine ⟨i1, fun x => ?_⟩
     simp only [List.foldl_cons, i2 x, h2 x, List.any_cons, Bool.or_assoc]
 
+/-- the time parameter is added uniformly -/
+theorem time_arg_uniform (rf ff fp : Bool) (t : ATerm) (pos : Bool) (st : TState) (t' : RTerm) (st' : TState)
+    (h : addTime rf ff fp pos st t = .ok (t', st')) :
+    (t.insts pos).mapM (stamp rf ff fp) = .ok (t'.insts pos) ∧ stampState rf ff fp st (t.insts pos) = .ok st' :=
+  addTime_insts rf ff fp t pos st t' st' h
+
+/-- `max_shift` after an atom term: at least every look-ahead that is not replaced, and attained -/
+theorem max_shift_is_max (rf ff fp : Bool) (t : ATerm) (st : TState) (t' : RTerm) (st' : TState)
+    (h : addTime rf ff fp true st t = .ok (t', st')) :
+    (∀ i ∈ t.insts true, ∀ r, getParam i.name rf ff fp = .ok r → r.shift > 0 → r.future = false → r.shift ≤ st'.maxShift) ∧
+    (st'.maxShift = st.maxShift ∨
+      ∃ i ∈ t.insts true, ∃ r, getParam i.name rf ff fp = .ok r ∧ r.shift > 0 ∧ r.future = false ∧ r.shift = st'.maxShift) := by
+  have hs := (addTime_insts rf ff fp t true st t' st' h).2
+  exact ⟨stampState_maxShift_covers rf ff fp _ st st' hs, stampState_maxShift_attained rf ff fp _ st st' hs⟩
+
+/-- future predicates are recorded per instance, with the sign the classical negations above it give -/
+theorem future_sign_recorded (rf ff fp : Bool) (t : ATerm) (st : TState) (t' : RTerm) (st' : TState)
+    (h : addTime rf ff fp true st t = .ok (t', st')) :
+    ∀ i ∈ t.insts true, ∀ r, getParam i.name rf ff fp = .ok r → r.shift > 0 → r.future = true →
+      ((r.name.drop Generated.futurePrefix.length).toString, i.args.length, i.positive, r.shift) ∈ st'.futures :=
+  stampState_futures rf ff fp _ st st' (addTime_insts rf ff fp t true st t' st' h).2
+
+/-- `create_symbol` gives back the symbol clingo presented -/
+theorem symbol_roundtrip (s : Sym) (h : okSym s = true) : createSymbol (symTerm s) = .ok s := sym_roundtrip s h
+
 /-! ### non-vacuity -/
+example : (ATerm.pool [.fn "p''" ["1"], .neg (.fn "q'" ["X", "2"])]).insts true = [⟨true, "p''", ["1"]⟩, ⟨false, "q'", ["X", "2"]⟩] := by
+  simp [ATerm.insts, ATerm.instsL]
 example : IvSorted [⟨0, 2⟩, ⟨4, 5⟩] := by simp [IvSorted]
 example : IntervalSet.add [⟨0, 2⟩, ⟨4, 5⟩] ⟨2, 4⟩ = [⟨0, 5⟩] := by decide
 
